@@ -273,6 +273,52 @@ def rule_find_node_identity(ctx, res):
             idx = find_calls(r, 'bucket_index_for_node')
             ok = ok and bool(idx) and field_chain(strip_transparent(idx[0][2][1])) == ['id'] and is_param(root_of(strip_transparent(idx[0][2][1])), 'node')
     res.check(ok, 'TABLE', fn, 'find_node_mut yields the live entry whose whole handle (id and address) equals the requested one, looked up in the bucket of that id', site=b.span)
+    # "the bucket of that id": index = shared prefix length, or the last bucket while the table is not yet split that far
+    ib = ctx.body('table::RoutingTable::bucket_index_for_node')
+    res.touch(ib)
+    isym = Sym(ib)
+    isym.run()
+
+    def is_lbc(t):
+        t = strip_transparent(t)
+        return isinstance(t, tuple) and t[0] == 'call' and t[1] == 'table::leading_bit_count' and is_param(root_of(strip_transparent(t[2][1])), 'node_id') \
+            and field_chain(strip_transparent(t[2][0])) == ['node_id']
+
+    def is_len(t):
+        t = strip_transparent(t)
+        return isinstance(t, tuple) and t[0] == 'call' and t[1].split('::')[-1] == 'len' and field_chain(strip_transparent(t[2][0])) == ['buckets']
+
+    def is_last(t):
+        t = strip_transparent(t)
+        if isinstance(t, tuple) and t[0] == 'bin' and t[1].replace('WithOverflow', '') == 'Sub' and is_len(t[2]) and lib.term_int(t[3]) == 1:
+            return True
+        cs = find_calls(t, 'checked_sub') + find_calls(t, 'saturating_sub')
+        return bool(cs) and is_len(cs[0][2][0]) and lib.term_int(strip_transparent(cs[0][2][1])) == 1 and not [x for x in find_calls(t, '') if False]
+    oki = bool(isym.complete_paths())
+    whyi = ''
+    for p in isym.complete_paths():
+        r = strip_transparent(p.ret)
+        cmpc = [lib.literal(c) for c in p.conds if lib.literal(c)[0] == 'lt' and lib.literal(c)[3] is not None]
+        other = [lib.literal(c) for c in p.conds if lib.literal(c) not in cmpc and not (lib.literal(c)[0] == 'variant' and find_calls(lib.literal(c)[1], 'checked_sub'))]
+        if other:
+            oki, whyi = False, 'decided by %s' % lib.fmt(other[0][1])[:80]
+            continue
+        if isinstance(r, tuple) and r[0] == 'call' and r[1] == 'table::bucket_placement' and is_lbc(r[2][0]) and is_len(r[2][1]) and not cmpc:
+            continue
+        if isinstance(r, tuple) and r[0] == 'call' and r[1].split('::')[-1] == 'min' and not cmpc and ((is_lbc(r[2][0]) and is_last(r[2][1])) or (is_lbc(r[2][1]) and is_last(r[2][0]))):
+            continue
+        inside = None
+        for l in cmpc:
+            if is_lbc(l[1]) and is_len(l[2]):
+                inside = bool(l[3])              # lbc < len
+            elif is_len(l[1]) and is_lbc(l[2]):
+                inside = None                      # len < lbc: says nothing about lbc == len
+        if inside is True and is_lbc(r):
+            continue
+        if inside is False and is_last(r):
+            continue
+        oki, whyi = False, 'returns %s under %s' % (lib.fmt(r)[:60], [lib.fmt(l[1])[:40] + ('<' if l[3] else '>=') + lib.fmt(l[2])[:30] for l in cmpc])
+    res.check(oki, 'TABLE', ib.path, 'the bucket of an id is buckets[shared prefix length], or the last bucket while the table has not been split that far (same placement as insertion)', detail=whyi, key='bucket-of-id')
     adt = ctx.f.adts.get('node::NodeHandle')
     fields = [f['name'] for f in adt['variants'][0]['fields']] if adt else None
     derived = {im['trait'] for im in ctx.f.impls if im['self_ty'] == 'node::NodeHandle' and im['derived']}
@@ -315,6 +361,26 @@ def rule_send_transmits(ctx, res):
             ok = False
             why = 'send_to(%s) awaited=%s' % (', '.join(lib.fmt(x)[:50] for x in a), awaited)
     res.check(ok and n >= 1, 'MPT', b.path, 'Socket::send returns Ok only after awaiting send_to(encode(message), addr) on the UDP socket (no silent drop)', detail=why, key='send-transmits')
+    # .. and it gives up only when encoding or the UDP send itself failed: no other refusal (a size check of its own, say,
+    # would leave a well-formed query unanswered)
+    okr = True
+    whyr = ''
+    for p in s.complete_paths():
+        if agg_variant(p.ret) == 'Ok':
+            continue
+        r = p.ret
+        src = None
+        if r[0] == 'call' and r[1].endswith('from_residual'):
+            src = [x for x in find_calls(r, 'bencode::encode') + find_calls(r, 'SocketTrait::send_to')]
+        elif agg_variant(r) == 'Err':
+            src = [x for x in find_calls(r, 'bencode::encode') + find_calls(r, 'SocketTrait::send_to')]
+        # the error returned is the failure value of encode / send_to on this very path
+        failed = [lib.literal(c) for c in p.conds if lib.literal(c)[0] == 'variant' and ((find_calls(lib.literal(c)[1], 'bencode::encode') and not find_calls(lib.literal(c)[1], 'SocketTrait::send_to') and lib.literal(c)[2] == 1)
+                                                                                 or (lib.fmt(lib.literal(c)[1]).startswith('Try>::branch(await(') and find_calls(lib.literal(c)[1], 'SocketTrait::send_to') and lib.literal(c)[2] == 1))]
+        if not src or not failed:
+            okr = False
+            whyr = 'an error exit that does not come from encode / send_to: %s' % lib.fmt(r)[:100]
+    res.check(okr, 'MPT', b.path, 'Socket::send fails only by passing on an encode or send_to error (it refuses no message on its own)', detail=whyr, key='send-refuses-nothing')
     # the production transport forwards to tokio's UdpSocket
     ub = ctx.co('socket::<impl SocketTrait for tokio::net::UdpSocket>::send_to')
     res.touch(ub)
